@@ -36,13 +36,13 @@ type desc struct {
 
 // env is what an entry point needs besides the bytes (all of it from the specification).
 type env struct {
-	Pfx   string   `json:"pfx"`   // storage key prefix of the kind
-	St    string   `json:"st"`    // "raw" | "s2"
-	TiPfx string   `json:"tipfx"` // table-index prefix (blocks)
-	CPfx  string   `json:"cpfx"`  // commit prefix
-	Seeds [][]byte `json:"seeds"` // commits that must pre-exist at the receiver
-	Rcv   string   `json:"rcv"`   // verdict for ObjectReceiver.Receive of a whole packfile
-	OType int      `json:"otype"` // packfile object type of the kind
+	Pfx   string   `json:"pfx"`            // storage key prefix of the kind
+	St    string   `json:"st"`             // "raw" | "s2"
+	TiPfx string   `json:"tipfx"`          // table-index prefix (blocks)
+	CPfx  string   `json:"cpfx"`           // commit prefix
+	Seeds [][]byte `json:"seeds"`          // commits that must pre-exist at the receiver
+	Rcv   string   `json:"rcv"`            // verdict for ObjectReceiver.Receive of a whole packfile
+	OType int      `json:"otype"`          // packfile object type of the kind
 	Objs  []semObj `json:"objs,omitempty"` // kind "rpack": the objects of the session, in sending order
 }
 
